@@ -341,6 +341,9 @@ func c05(c *Ctx) {
 	validationInCriticalSection(c, "C05.3/validation-in-critical-section")
 
 	c05EverySnapshotValidated(c, "C05.3/every-snapshot-validated")
+	// the "nothing was committed since this snapshot" shortcut of the validation compares Snapshot.Ts() with the precommit
+	// frontier: it is sound only if that time describes the root the snapshot was built on (analysis shared with C10.9)
+	c10SnapshotTime(c, "C05.3/snapshot-time-follows-its-root")
 	// a scan made inside a read-write transaction returns what the same scan returns outside of it: the recording
 	// wrapper and the plain store reader agree on what Reset restarts (analysis shared with C10.7)
 	readerRestart(c, "C05.2/key-readers-restart-alike", "embedded/store.(*storeKeyReader).", "storeKeyReader", []string{"Read", "ReadBetween"}, false, 2)
